@@ -1,9 +1,9 @@
 //! C18 — serialization round-trips every value bit for bit (serde: JSON text + CBOR binary;
 //! borsh when the harness is built with the `borsh` feature, which enables the library's).
 
-use crate::flat::*;
-use crate::gen::*;
-use crate::mon::*;
+use ppv::flat::*;
+use ppv::gen::*;
+use ppv::mon::*;
 use piecewise_polynomial::*;
 use serde::{de::DeserializeOwned, Serialize};
 use serde_json::json;
@@ -199,7 +199,7 @@ pub fn run(a: &Args, m: &mut Mon) {
                 family!(m, &mut r, IntOfLog<$t>);
             };
         }
-        crate::for_polys!(fam);
+        ppv::for_polys!(fam);
         family!(m, &mut r, IntOfLogPoly4);
         knot(m, &mut r);
     }
